@@ -451,7 +451,10 @@ def ensure_built():
 
 
 def tlc_cmd(mode, workers, extra_java=()):
-    return (["java", "-Xss768m", "-XX:+UseParallelGC"] + list(extra_java) +
+    # explicit heap bounds (the JVM default is 1/4 of RAM per process: 16 concurrent validators would overcommit);
+    # java.io.tmpdir inside the scratch directory so that TLC's unpacked standard modules are removed with it
+    heap = "-Xmx2g" if workers == 1 else "-Xmx10g"
+    return (["java", "-Xss768m", heap, "-XX:+UseParallelGC", "-Djava.io.tmpdir=" + scratch()] + list(extra_java) +
             ["-cp", "%s/build/classes:%s:%s" % (VERIF, TLA_JAR, CM_JAR),
              "-DTLA-Library=%s/spec/%s:%s/spec" % (VERIF, mode, VERIF),
              "tlc2.TLC", "-noGenerateSpecTE", "-workers", str(workers)])
